@@ -21,7 +21,7 @@ pub fn drains() -> Vec<Plan> {
     menu(&["DN", "DI", "DV", "DW", "DC1", "DC2", "DC3", "DB2", "DB3", "FE1", "FE2", "EF1", "EF2", "FO1", "FO3"])
 }
 pub fn prefixed() -> Vec<Plan> {
-    menu(&["N,DC3", "I,DB2", "C2,DN", "C3,DI", "C2:1,DC2", "B2x1:1,DN", "B3x1,DC2", "N,N,DB2", "C2,FE2"])
+    menu(&["N,DC3", "I,DB2", "C2,DN", "C3,DI", "C2:1,DC2", "B2x1:1,DN", "B3x1,DC2", "N,N,DB2", "C2,FE2", "L,DN", "H,DB2", "C4611686018427387903:1,DN"])
 }
 pub fn stops() -> Vec<Plan> {
     menu(&["N", "I,I", "C2", "C2:1", "C3,N", "B2x1", "B2x2:1", "N,C2", "V,W", "B3x1:0,N", "C1,I", "B2x2:1f", "B3x2:0f"])
@@ -177,6 +177,10 @@ pub fn for_property(prop: &str, tier: Tier) -> Vec<(SysCfg, RunOpts)> {
                 s.pairs(&counter_kinds(), &[4, 5], &m, &m, &d, &complete2());
             }
             s.triples(&main_kinds, &[3, 4], &menu(&["C2", "B2x2:1", "N", "DC3", "B3x1"]), &d, &bounded(b3));
+            // a wrapped iterator that yields again after None: a chunk never contains what a sequential use would not yield
+            let nf = menu(&["DC2", "DB2", "C2,N", "C3,DI", "B2x2", "B3x1,N", "DC3", "C2:1,DC2", "B2x2:1f"]);
+            s.pairs(&[K::IterNonFused], &l03, &nf, &nf, &d, &complete2());
+            s.triples(&[K::IterNonFused], &[1, 2], &menu(&["DC2", "C2,N", "DB2", "C3"]), &d, &bounded(b3));
         }
         "C04" => {
             let m = cat(&stops(), &menu(&["DN", "DC2", "DB2", "DW", "N,DC3", "C2,DN"]));
